@@ -216,6 +216,27 @@ func addApiMethod(annotationName string) {
 		"DELETE":
 
 		currentRestAPI.HttpMethod = "DELETE"
+
+	// the verbs that only @RequestMapping(method = ...) can name
+	case
+		"RequestMethod.PATCH",
+		"PATCH":
+		currentRestAPI.HttpMethod = "PATCH"
+
+	case
+		"RequestMethod.HEAD",
+		"HEAD":
+		currentRestAPI.HttpMethod = "HEAD"
+
+	case
+		"RequestMethod.OPTIONS",
+		"OPTIONS":
+		currentRestAPI.HttpMethod = "OPTIONS"
+
+	case
+		"RequestMethod.TRACE",
+		"TRACE":
+		currentRestAPI.HttpMethod = "TRACE"
 	}
 }
 
